@@ -1,6 +1,6 @@
 SPECIFICATION Spec
 CONSTANTS
-  N = 4
+  N = 6
   CFGS <- CfgA
   MAXT = 3
   DEPTH = 0
